@@ -134,6 +134,20 @@ def run(chk: Check) -> None:
     chk.ob("R10.2", "Module._index_add~_index_discard:same-conditions", ca == cd, add.loc(),
            "_index_add and _index_discard apply different conditions to the same index: %s vs %s"
            % (ca, cd), 3)
+    # the conditions themselves may only ask whether the symbol has the key (a referent): a
+    # condition on anything else (the block's module, the module's IR, ...) can change later
+    # without the index hearing of it
+    for f_, conds_ in ((add, ca), (dis, cd)):
+        for (idx_, key_), cond_ in conds_.items():
+            atoms_ = [a_ for a_ in cond_.split(" & ") if a_]
+            foreign = [a_ for a_ in atoms_ if not (
+                a_.lstrip("+-").startswith("truthy $.") and a_.lstrip("+-").count(".") == 1) and
+                not ("truthy " in a_ and a_.lstrip("+-").split(" ", 1)[1].isidentifier())
+                and "len(" not in a_]
+            chk.ob("R10.2", "%s:%s:condition-on-own-key" % (f_.qualname, idx_), not foreign, f_.loc(),
+                   "%s maintains %s under the condition %s: whether a symbol is indexed may only depend "
+                   "on the symbol's own key attributes, which notify the module when they change"
+                   % (f_.qualname, idx_, " and ".join(foreign)), 2)
     chk.ob("R10.2", "Module._index_add~_index_discard:same-kind-guard", ga == gd and "Symbol" in ga,
            add.loc(), "both must act on Symbol instances only (%s vs %s)" % (ga, gd), 2)
     chk.ob("R10.2", "Module-symbol-indexes:both", {i for i, _ in ta} == set(INDEXES), add.loc(),
@@ -182,6 +196,15 @@ def run(chk: Check) -> None:
         chk.ob("R10.2", "Module.__init__:creates(%s)" % idx, per_instance and idx not in mod.class_assigns,
                init.loc(), "%s must be a per-module instance attribute created in __init__" % idx, 1)
 
+    # lookups by name / referent write nothing (a memo goes stale when a block moves)
+    from .c12 import _purity as _lookup_purity
+    from ..types import TypeEnv
+    sub = chk.sub()
+    try:
+        _lookup_purity(sub, TypeEnv(repo), repo.cls("LazyIntervalTree"))
+        chk.adopt(sub, lambda o: "references" in o.construct or "symbols_named" in o.construct, "R10.4")
+    except AnalysisError:
+        pass
     # R10.3 ---------------------------------------------------------------
     n = 0
     for prop, rule, construct, ok, loc, msg, facts in own.obs:
